@@ -4,6 +4,8 @@ of input and output under every valuation of a grid, in exact arithmetic: reals 
 truncating division.  Output: one JSON object on stdout.  Never counted as proved.
 
 bound (quick):    depth <= 2, arity <= 2, leaves {a, b, 0, 1, 2, -1(python int, products only), 3}
+                  + the structured depth-3 family nested_family() (sums with quotient / negated summands under quotients
+                  and products) in both tiers
 bound (thorough): depth <= 2, arity <= 3 + seeded random trees of depth 3
 valuations: a, b in {-3, -1, 2, 5}; a valuation is skipped when a divisor (input or output) is zero
 """
@@ -115,6 +117,26 @@ def trees(depth, arity):
     return out
 
 
+def nested_family():
+    """depth-3 shapes the distribution functions pattern-match on: quotients whose numerator is a sum with quotient /
+    negated / sum summands (in every position), and products of such sums"""
+    two = sym.IntLiteral(2)
+    terms = [A, B, two, sym.Quotient(A, B), sym.Quotient(B, two), sym.Product((-1, A)), sym.Sum((A, B))]
+    dens = [A, B, two, sym.Product((-1, B))]
+    out = []
+    for k in (2, 3):
+        for ch in itertools.product(terms, repeat=k):
+            if k == 3 and sum(1 for c in ch if isinstance(c, (pmbl.Quotient, pmbl.Sum, pmbl.Product))) > 2:
+                continue
+            s_ = sym.Sum(ch)
+            for d in dens:
+                out.append(sym.Quotient(s_, d))
+            if k == 2:
+                out.append(sym.Product((A, s_)))
+                out.append(sym.Product((s_, sym.Quotient(B, two))))
+    return out
+
+
 def random_tree(rng, depth):
     if depth == 0 or rng.random() < 0.2:
         return rng.choice(LEAVES)
@@ -175,6 +197,7 @@ def main():
     else:
         rng = random.Random(seed)
         inputs = inputs + [random_tree(rng, 3) for _ in range(3000)]
+    inputs = inputs + nested_family()
     results = []
     for fname, fn in functions(tier).items():
         if only and only not in fname:
